@@ -34,10 +34,14 @@ def project_probes(ctx, project):
             ctx.probe("two_patterns_one_line", f["shared_lines"])
         if f.get("overlap"):
             ctx.probe("overlapping_bare_patterns")
+        if f.get("nested"):
+            ctx.probe("matches_nested_in_an_earlier_match")
         if f.get("twin_context"):
             ctx.probe("same_context_other_pattern_in_another_file")
         if f.get("symlink_to"):
             ctx.probe("symlinked_pattern_file")
+        if f.get("huge_line"):
+            ctx.probe("line_longer_than_128KiB")
         if f.get("bare"):
             ctx.probe("bare_version_pattern")
         if f.get("globbed"):
